@@ -347,6 +347,7 @@ def ops_strategy():
                                                            "str", "none"]), sel, st.booleans()),
         st.tuples(st.just("bad_add"), sel, st.integers(0, len(NON_FRAMES) - 1)),
         st.tuples(st.just("assign"), sel, st.sampled_from(["neg1", "neg", "over", "over2", "type", "legal"]), sel),
+        st.tuples(st.just("clone"), sel, st.sampled_from(["copy", "deepcopy", "pickle", "rebuild"])),
         st.tuples(st.just("observe"), sel),
     )
     return st.lists(op, min_size=1, max_size=40)
@@ -632,6 +633,33 @@ def _interp(ops):
                         break
                     m.bits[:] = M.from_int(w, n).bits
                     quick_agree(f, m, out, where + " (after accepted assignment to .%s)" % a)
+            elif kind == "clone":
+                # a copy of a frame (copy / deepcopy / pickle round trip / rebuilt from its own views) is an equal frame
+                # of the same class and from then on a frame of its own: later writes to either leave the other alone
+                import copy
+                import pickle
+                f, m, cc = pick(op[1])
+                how = op[2]
+                if how == "copy":
+                    g = copy.copy(f)
+                elif how == "deepcopy":
+                    g = copy.deepcopy(f)
+                elif how == "pickle":
+                    g = pickle.loads(pickle.dumps(f))
+                else:
+                    g = type(f)(f.as_integer) if isinstance(f, frame.BackwardFrame) else type(f)(len(f), f.as_byte_sequence)
+                if type(g) is not type(f) or not (g == f) or (g != f) or g is f:
+                    out.append(("C05:clone-differs", "%s: %s of a %s(%d, %#x) gives %r" % (where, how, type(f).__name__, m.w, m.n, g)))
+                else:
+                    mg = M(list(m.bits))
+                    pool.append((g, mg, cc))
+                    quick_agree(g, mg, out, where + " (the clone)")
+                    # one write to the clone, read both
+                    i = (step * 5) % m.w
+                    g[i] = not mg.bits[i]
+                    mg.bits[i] = not mg.bits[i]
+                    quick_agree(g, mg, out, where + " (the clone after a write to it)")
+                    quick_agree(f, m, out, where + " (the original after a write to its clone)")
             elif kind == "observe":
                 f, m, _ = pick(op[1])
                 deep_agree(f, m, out, where, touched[-4:])
